@@ -303,7 +303,7 @@ func runSeq(p *DPlan, system string, keepLog bool, prefix string) seqResult {
 			}
 			faultInOpen := false
 			for _, f := range p.Faults {
-				if ri == 0 && f.At < nsysOpen && f.Kind != "crash" {
+				if ri == 0 && f.Op == "" && f.At < nsysOpen && f.Kind != "crash" {
 					// fault fired inside NewFileDisk yet it reported success:
 					// everything read afterwards must still be exact
 					res.faultHit = true
@@ -400,11 +400,17 @@ func runSeq(p *DPlan, system string, keepLog bool, prefix string) seqResult {
 						return nil
 					}
 					for i := range p.Faults {
-						if f := &p.Faults[i]; f.At >= sysBefore && f.At < k.Syscalls() {
+						if f := &p.Faults[i]; f.Op == "" && f.At >= sysBefore && f.At < k.Syscalls() {
 							if f.Kind == "short" && op.Kind == "barrier" {
 								continue // a short-transfer fault cannot apply to fsync
 							}
 							return f
+						}
+					}
+					// faults selected per system call name (the k-th pwrite, every pwrite from then on)
+					for i := range k.Fired {
+						if ff := &k.Fired[i]; ff.F.Op != "" && ff.N >= sysBefore && ff.N < k.Syscalls() {
+							return &ff.F
 						}
 					}
 					return nil
